@@ -74,3 +74,52 @@ class BufferedDestination(M.Destination):
 
     def step_dynamics(self, net, T, engine=None, **_):
         return {"s": self.states["s"] + T * self.disturbances["d"]}
+
+
+class AlineaRamp(M.MeteredOnRamp):
+    """A metered on-ramp that carries the gains of its local controller: still a ramp in every respect."""
+
+    _vf_user = True
+
+    def __init__(self, *args, gain=70.0, **kwargs):
+        super().__init__(*args, **kwargs)
+        self.gain = gain
+
+
+class HovRamp(M.SimplifiedMeteredOnRamp):
+    _vf_user = True
+
+    def __init__(self, *args, share=0.2, **kwargs):
+        super().__init__(*args, **kwargs)
+        self.share = share
+
+
+class BoundaryDetector(M.Origin):
+    """A user-defined ideal origin (no override at all)."""
+
+    _vf_user = True
+
+
+class TtsLink(M.Link):
+    """A link that integrates its total time spent in an additional state `tts` (a user-defined kind that
+    ADDS a state to a stock kind): states are held as rho, v, tts."""
+
+    _vf_user = True
+    _states = {"rho", "v", "tts"}
+
+    def init_vars(self, init_conditions=None, engine=None, **kwargs):
+        if engine is None:
+            engine = get_current_engine()
+        ic = dict(init_conditions or {})
+        tts = ic.pop("tts", None)
+        super().init_vars(ic, engine, **kwargs)
+        self.states["tts"] = tts if tts is not None else engine.var(f"tts_{self.name}")
+
+    def step_dynamics(self, net, *args, T=None, **kwargs):
+        nxt = super().step_dynamics(net, *args, T=T, **kwargs)
+        rho = self.states["rho"]
+        tot = rho[0]
+        for i in range(1, self.N):
+            tot = tot + rho[i]
+        nxt["tts"] = self.states["tts"] + T * self.L * self.lam * tot
+        return nxt
